@@ -1,6 +1,387 @@
-//! C19 (placeholder until the probe matrix lands)
-use crate::check::EngineReport;
+//! E4 / C19: the complete (method or type) x (misuse pattern) matrix of probe programs, each judged
+//! by rustc, each misuse cell paired with a positive control built from the same template.
+//! This is bounded exhaustive enumeration of a generated program family; it says nothing about
+//! client programs outside the matrix (claimed as `exploration`).
+use crate::check::{EngineReport, Extra};
+use crate::oracle::Finding;
 use crate::plan::Tier;
+use rayon::prelude::*;
+use serde_json::json;
+use std::collections::{BTreeMap, BTreeSet};
+use std::process::Command;
+
+const EXPECTED: [&str; 9] = ["E0499", "E0502", "E0505", "E0506", "E0597", "E0716", "E0277", "E0521", "E0503"];
+
+#[derive(Clone)]
+struct Row {
+    ty: &'static str,
+    name: String,
+    /// expression producing a borrow of `c`
+    take: String,
+    yields_mut: bool,
+}
+
+struct Probe {
+    id: String,
+    row: String,
+    pattern: &'static str,
+    misuse: bool,
+    src: String,
+}
+
+fn setup(ty: &str) -> &'static str {
+    match ty {
+        "RawLRU" => "let mut c: caches::RawLRU<u64, String> = caches::RawLRU::new(3).unwrap();",
+        "SegmentedCache" => "let mut c: caches::SegmentedCache<u64, String> = caches::SegmentedCache::new(2, 2).unwrap();",
+        "TwoQueueCache" => "let mut c: caches::TwoQueueCache<u64, String> = caches::TwoQueueCache::new(4).unwrap();",
+        "AdaptiveCache" => "let mut c: caches::AdaptiveCache<u64, String> = caches::AdaptiveCache::new(4).unwrap();",
+        _ => "let mut c: caches::WTinyLFUCache<u64, String> = caches::WTinyLFUCache::with_sizes(1, 2, 2, 5).unwrap();",
+    }
+}
+
+fn rows() -> Vec<Row> {
+    let mut v = vec![];
+    let mut add = |ty: &'static str, name: &str, take: &str, m: bool| v.push(Row { ty, name: name.to_string(), take: take.to_string(), yields_mut: m });
+    for ty in ["RawLRU", "SegmentedCache", "TwoQueueCache", "AdaptiveCache", "WTinyLFUCache"] {
+        add(ty, "get", "c.get(&1)", false);
+        add(ty, "get_mut", "c.get_mut(&1)", true);
+        add(ty, "peek", "c.peek(&1)", false);
+        add(ty, "peek_mut", "c.peek_mut(&1)", true);
+    }
+    for (n, m) in [
+        ("get_lru", false),
+        ("get_lru_mut", true),
+        ("get_mru", false),
+        ("get_mru_mut", true),
+        ("peek_lru", false),
+        ("peek_lru_mut", true),
+        ("peek_mru", false),
+        ("peek_mru_mut", true),
+    ] {
+        add("RawLRU", n, &format!("c.{}()", n), m);
+    }
+    add("RawLRU", "peek_or_put", "c.peek_or_put(1, String::new()).0", false);
+    add("RawLRU", "peek_mut_or_put", "c.peek_mut_or_put(1, String::new()).0", true);
+    for (n, m) in [
+        ("iter", false),
+        ("iter_lru", false),
+        ("iter_mut", true),
+        ("iter_lru_mut", true),
+        ("keys", false),
+        ("keys_lru", false),
+        ("values", false),
+        ("values_lru", false),
+        ("values_mut", true),
+        ("values_lru_mut", true),
+    ] {
+        add("RawLRU", n, &format!("c.{}()", n), m);
+        for pfx in ["recent", "frequent", "ghost"] {
+            add("TwoQueueCache", &format!("{}_{}", pfx, n), &format!("c.{}_{}()", pfx, n), m);
+        }
+        for pfx in ["recent", "frequent", "recent_evict", "frequent_evict"] {
+            add("AdaptiveCache", &format!("{}_{}", pfx, n), &format!("c.{}_{}()", pfx, n), m);
+        }
+    }
+    add("RawLRU", "(&cache).into_iter", "(&c).into_iter()", false);
+    add("RawLRU", "(&mut cache).into_iter", "(&mut c).into_iter()", true);
+    for (n, m) in [
+        ("peek_lru_from_probationary", false),
+        ("peek_lru_mut_from_probationary", true),
+        ("peek_mru_from_probationary", false),
+        ("peek_mru_mut_from_probationary", true),
+        ("peek_lru_from_protected", false),
+        ("peek_lru_mut_from_protected", true),
+        ("peek_mru_from_protected", false),
+        ("peek_mru_mut_from_protected", true),
+    ] {
+        add("SegmentedCache", n, &format!("c.{}()", n), m);
+    }
+    v
+}
+
+const PRELUDE: &str = "#![allow(unused, dropping_references)]\nuse caches::{Cache, ResizableCache};\nfn use_it<T>(_t: T) {}\n";
+
+fn fill() -> &'static str {
+    "c.put(1, String::from(\"a\")); c.put(2, String::from(\"b\"));"
+}
+
+fn borrow_probes() -> Vec<Probe> {
+    let mut out = vec![];
+    for r in rows() {
+        let rowname = format!("{}::{}", r.ty, r.name);
+        let mut muts: Vec<(&str, &str)> = vec![("put", "c.put(3, String::from(\"c\"));"), ("purge", "c.purge();"), ("remove", "c.remove(&1);")];
+        if r.ty == "RawLRU" {
+            muts.push(("resize", "c.resize(1);"));
+        }
+        let base = format!("{}pub fn probe() {{\n    {}\n    {}\n", PRELUDE, setup(r.ty), fill());
+        // P1: reference held across a mutation / control: used before the mutation
+        for (mn, m) in &muts {
+            out.push(Probe { id: String::new(), row: rowname.clone(), pattern: "held_across_mutation", misuse: true, src: format!("{}    let r = {};\n    {}\n    use_it(r);\n}}\n", base, r.take, m) });
+            if *mn == "put" {
+                out.push(Probe { id: String::new(), row: rowname.clone(), pattern: "held_across_mutation", misuse: false, src: format!("{}    let r = {};\n    use_it(r);\n    {}\n}}\n", base, r.take, m) });
+            }
+        }
+        // P2: outliving the cache (scope end / explicit drop)
+        out.push(Probe {
+            id: String::new(),
+            row: rowname.clone(),
+            pattern: "outlives_cache_scope",
+            misuse: true,
+            src: format!("{}pub fn probe() {{\n    let r;\n    {{\n        {}\n        {}\n        r = {};\n    }}\n    use_it(r);\n}}\n", PRELUDE, setup(r.ty), fill(), r.take),
+        });
+        out.push(Probe { id: String::new(), row: rowname.clone(), pattern: "outlives_cache_drop", misuse: true, src: format!("{}    let r = {};\n    drop(c);\n    use_it(r);\n}}\n", base, r.take) });
+        out.push(Probe { id: String::new(), row: rowname.clone(), pattern: "outlives_cache_drop", misuse: false, src: format!("{}    let r = {};\n    use_it(r);\n    drop(c);\n}}\n", base, r.take) });
+        // P3: two live mutable borrows of the same entry
+        if r.yields_mut {
+            out.push(Probe {
+                id: String::new(),
+                row: rowname.clone(),
+                pattern: "two_live_mutable_borrows",
+                misuse: true,
+                src: format!("{}    let a = {};\n    let b = {};\n    use_it(a);\n    use_it(b);\n}}\n", base, r.take, r.take),
+            });
+        }
+        if r.yields_mut {
+            // a mutable borrow next to a shared one of the same entry
+            out.push(Probe { id: String::new(), row: rowname.clone(), pattern: "mutable_next_to_shared", misuse: true, src: format!("{}    let a = {};\n    let b = c.peek(&1);\n    use_it(a);\n    use_it(b);\n}}\n", base, r.take) });
+        }
+    }
+    out
+}
+
+fn marker_probes() -> Vec<Probe> {
+    let mut out = vec![];
+    let head = format!("{}use std::cell::Cell;\nuse std::rc::Rc;\nfn is_send<T: Send>() {{}}\nfn is_sync<T: Sync>() {{}}\n", PRELUDE);
+    let mut add = |row: String, pattern: &'static str, misuse: bool, body: String| {
+        out.push(Probe { id: String::new(), row, pattern, misuse, src: format!("{}pub fn probe() {{\n    {}\n}}\n", head, body) });
+    };
+    let shared = ["MRUIter", "LRUIter", "KeysMRUIter", "KeysLRUIter", "ValuesMRUIter", "ValuesLRUIter"];
+    let mutable = ["MRUIterMut", "LRUIterMut", "ValuesMRUIterMut", "ValuesLRUIterMut"];
+    for it in shared.iter().chain(mutable.iter()) {
+        let row = format!("iterator {}", it);
+        let t = |k: &str, v: &str| format!("caches::lru::{}<'static, {}, {}>", it, k, v);
+        // positive controls
+        add(row.clone(), "send_sync_marker", false, format!("is_send::<{}>(); is_sync::<{}>();", t("u64", "String"), t("u64", "String")));
+        // nothing is Send/Sync when keys or values are not (Rc)
+        for (k, v) in [("Rc<u8>", "u8"), ("u8", "Rc<u8>")] {
+            add(row.clone(), "send_sync_marker", true, format!("is_send::<{}>();", t(k, v)));
+            add(row.clone(), "send_sync_marker", true, format!("is_sync::<{}>();", t(k, v)));
+        }
+        // keys are always handed out by shared reference: K must be Sync to send the iterator
+        add(row.clone(), "send_sync_marker", true, format!("is_send::<{}>();", t("Cell<u8>", "u8")));
+        add(row.clone(), "send_sync_marker", true, format!("is_sync::<{}>();", t("Cell<u8>", "u8")));
+        add(row.clone(), "send_sync_marker", true, format!("is_sync::<{}>();", t("u8", "Cell<u8>")));
+        if shared.contains(it) {
+            // values handed out by shared reference: V must be Sync to send the iterator
+            add(row.clone(), "send_sync_marker", true, format!("is_send::<{}>();", t("u8", "Cell<u8>")));
+        }
+    }
+    let caches = [
+        ("RawLRU", "caches::RawLRU<{K}, {V}>"),
+        ("SegmentedCache", "caches::SegmentedCache<{K}, {V}>"),
+        ("TwoQueueCache", "caches::TwoQueueCache<{K}, {V}>"),
+        ("AdaptiveCache", "caches::AdaptiveCache<{K}, {V}>"),
+    ];
+    for (name, tmpl) in caches {
+        let row = format!("cache type {}", name);
+        let t = |k: &str, v: &str| tmpl.replace("{K}", k).replace("{V}", v);
+        add(row.clone(), "send_sync_marker", false, format!("is_send::<{}>(); is_sync::<{}>();", t("u64", "String"), t("u64", "String")));
+        for (k, v) in [("Rc<u8>", "u8"), ("u8", "Rc<u8>")] {
+            add(row.clone(), "send_sync_marker", true, format!("is_send::<{}>();", t(k, v)));
+            add(row.clone(), "send_sync_marker", true, format!("is_sync::<{}>();", t(k, v)));
+        }
+        for (k, v) in [("Cell<u8>", "u8"), ("u8", "Cell<u8>")] {
+            add(row.clone(), "send_sync_marker", true, format!("is_sync::<{}>();", t(k, v)));
+        }
+        // a cache of Send-but-not-Sync values may still be moved to another thread
+        add(row.clone(), "send_sync_marker", false, format!("is_send::<{}>();", t("u64", "Cell<u8>")));
+    }
+    // W-TinyLFU (keys must be hashable for the type to be well-formed)
+    let row = "cache type WTinyLFUCache".to_string();
+    add(row.clone(), "send_sync_marker", false, "is_send::<caches::WTinyLFUCache<u64, String>>(); is_sync::<caches::WTinyLFUCache<u64, String>>();".to_string());
+    add(row.clone(), "send_sync_marker", true, "is_send::<caches::WTinyLFUCache<Rc<u8>, u8>>();".to_string());
+    add(row.clone(), "send_sync_marker", true, "is_sync::<caches::WTinyLFUCache<u8, Rc<u8>>>();".to_string());
+    add(row.clone(), "send_sync_marker", true, "is_send::<caches::WTinyLFUCache<u8, Rc<u8>>>();".to_string());
+    add(row.clone(), "send_sync_marker", true, "is_sync::<caches::WTinyLFUCache<u8, Cell<u8>>>();".to_string());
+    // a live iterator really crossing a thread boundary
+    add(
+        "iterator MRUIter".into(),
+        "iterator_over_cells_sent_to_thread",
+        true,
+        "let mut c: caches::RawLRU<u64, Cell<u8>> = caches::RawLRU::new(2).unwrap(); c.put(1, Cell::new(0));\n    std::thread::scope(|s| { let it = c.iter(); s.spawn(move || { for (_, v) in it { v.set(1); } }); for (_, v) in c.iter() { v.set(2); } });".to_string(),
+    );
+    add(
+        "iterator MRUIter".into(),
+        "iterator_over_cells_sent_to_thread",
+        false,
+        "let mut c: caches::RawLRU<u64, u8> = caches::RawLRU::new(2).unwrap(); c.put(1, 0);\n    std::thread::scope(|s| { let it = c.iter(); s.spawn(move || { for (_, v) in it { use_it(v); } }); for (_, v) in c.iter() { use_it(v); } });".to_string(),
+    );
+    out
+}
+
+struct Verdict {
+    compiled: bool,
+    codes: Vec<String>,
+    first_error: String,
+}
+
+fn compile(dir: &str, rlib: &str, deps: &str, p: &Probe) -> Result<Verdict, String> {
+    let src = format!("{}/{}.rs", dir, p.id);
+    let outp = format!("{}/{}.rmeta", dir, p.id);
+    std::fs::write(&src, &p.src).map_err(|e| e.to_string())?;
+    let o = Command::new("rustc")
+        .args(["--edition", "2021", "--crate-type", "lib", "--emit=metadata", "--error-format=json", "--cap-lints", "allow", "-L"])
+        .arg(format!("dependency={}", deps))
+        .arg("--extern")
+        .arg(format!("caches={}", rlib))
+        .arg("-o")
+        .arg(&outp)
+        .arg(&src)
+        .output()
+        .map_err(|e| format!("cannot run rustc: {}", e))?;
+    let stderr = String::from_utf8_lossy(&o.stderr).to_string();
+    let mut codes = vec![];
+    let mut first = String::new();
+    for line in stderr.lines() {
+        if let Ok(v) = serde_json::from_str::<serde_json::Value>(line) {
+            if v["level"] == "error" {
+                if let Some(c) = v["code"]["code"].as_str() {
+                    codes.push(c.to_string());
+                }
+                if first.is_empty() {
+                    first = v["message"].as_str().unwrap_or("").to_string();
+                }
+            }
+        }
+    }
+    let _ = std::fs::remove_file(&src);
+    let _ = std::fs::remove_file(&outp);
+    Ok(Verdict { compiled: o.status.success(), codes, first_error: first })
+}
+
+/// public methods in /repo/src that return references or iterators but are not rows of the matrix
+fn unprobed_methods(known: &BTreeSet<String>) -> Vec<String> {
+    let mut missing = vec![];
+    for f in ["src/lru/raw.rs", "src/lru/segmented.rs", "src/lru/two_queue.rs", "src/lru/adaptive.rs", "src/lfu/wtinylfu.rs"] {
+        let text = match std::fs::read_to_string(format!("/repo/{}", f)) {
+            Ok(t) => t,
+            Err(_) => continue,
+        };
+        let text = text.split("#[cfg(test)]").next().unwrap_or("").to_string();
+        let mut rest = text.as_str();
+        while let Some(i) = rest.find("pub fn ") {
+            rest = &rest[i + 7..];
+            let name: String = rest.chars().take_while(|c| c.is_alphanumeric() || *c == '_').collect();
+            let sig_end = rest.find('{').unwrap_or(rest.len().min(400));
+            let sig = &rest[..sig_end];
+            if let Some(arrow) = sig.find("->") {
+                let ret = &sig[arrow..];
+                let borrows = ret.contains('&') || ret.contains("Iter");
+                if borrows && sig.contains("self") && !name.starts_with("verif_") && !known.contains(&name) {
+                    missing.push(format!("{}::{}", f, name));
+                }
+            }
+        }
+    }
+    missing.sort();
+    missing.dedup();
+    missing
+}
+
 pub fn run(_tier: Tier) -> EngineReport {
-    EngineReport { name: "compile-probe-matrix".into(), ..Default::default() }
+    let mut rep = EngineReport { name: "compile-probe-matrix (rustc)".into(), exhaustive: true, ..Default::default() };
+    let rlib = match std::env::var("MC_CACHES_RLIB") {
+        Ok(r) if std::path::Path::new(&r).exists() => r,
+        _ => {
+            rep.machinery_errors.push("MC_CACHES_RLIB is not set (the probe matrix is driven by ./check C19)".into());
+            return rep;
+        }
+    };
+    let deps = std::path::Path::new(&rlib).parent().map(|p| p.to_string_lossy().to_string()).unwrap_or_default();
+    let dir = format!("{}/target/probes-{}", crate::check::VERIF, std::process::id());
+    let _ = std::fs::create_dir_all(&dir);
+    let mut probes = borrow_probes();
+    probes.extend(marker_probes());
+    for (i, p) in probes.iter_mut().enumerate() {
+        p.id = format!("p{:04}", i);
+    }
+    let verdicts: Vec<Result<Verdict, String>> = probes.par_iter().map(|p| compile(&dir, &rlib, &deps, p)).collect();
+    let _ = std::fs::remove_dir_all(&dir);
+    let mut per_pattern: BTreeMap<String, (u64, u64)> = BTreeMap::new();
+    let mut code_hist: BTreeMap<String, u64> = BTreeMap::new();
+    let mut rows_seen: BTreeSet<String> = BTreeSet::new();
+    for (p, v) in probes.iter().zip(verdicts.iter()) {
+        rep.evaluations += 1;
+        rows_seen.insert(p.row.clone());
+        let e = per_pattern.entry(format!("{}{}", p.pattern, if p.misuse { "" } else { " (control)" })).or_insert((0, 0));
+        e.0 += 1;
+        let v = match v {
+            Ok(v) => v,
+            Err(m) => {
+                if rep.machinery_errors.len() < 3 {
+                    rep.machinery_errors.push(m.clone());
+                }
+                continue;
+            }
+        };
+        for c in &v.codes {
+            *code_hist.entry(c.clone()).or_insert(0) += 1;
+        }
+        if p.misuse {
+            if v.compiled {
+                rep.violations.push(Extra {
+                    finding: Finding::new("C19", "misuse_is_rejected_at_compile_time", format!("{}/{}", p.row, p.pattern), format!("this misuse of {} ({}) compiles:\n{}", p.row, p.pattern, p.src)),
+                    case: json!({"engine": "probes", "row": p.row, "pattern": p.pattern, "source": p.src}),
+                    count: 1,
+                });
+            } else if !v.codes.iter().any(|c| EXPECTED.contains(&c.as_str())) {
+                if rep.machinery_errors.len() < 3 {
+                    rep.machinery_errors.push(format!("probe {} / {} fails for an unrelated reason ({:?}: {}); the template is broken\n{}", p.row, p.pattern, v.codes, v.first_error, p.src));
+                }
+            } else {
+                e.1 += 1;
+            }
+        } else if !v.compiled {
+            // a control that does not compile: the API cannot be used the intended way (or the template is stale)
+            if rep.machinery_errors.len() < 3 {
+                rep.machinery_errors.push(format!("positive control for {} / {} does not compile ({:?}: {})\n{}", p.row, p.pattern, v.codes, v.first_error, p.src));
+            }
+        } else {
+            e.1 += 1;
+        }
+    }
+    let known: BTreeSet<String> = rows().iter().map(|r| r.name.clone()).collect();
+    let unprobed = unprobed_methods(&known);
+    for u in &unprobed {
+        eprintln!("[C19] note: public method {} returns a borrow but has no row in the probe matrix", u);
+    }
+    rep.distinct_nontrivial = probes.iter().filter(|p| p.misuse).count() as u64;
+    rep.samples = probes.iter().step_by(probes.len() / 4 + 1).map(|p| json!({"engine": "probes", "row": p.row, "pattern": p.pattern, "misuse": p.misuse, "source": p.src})).collect();
+    rep.detail = json!({
+        "rows": rows_seen.len(), "probes": probes.len(), "misuse_probes": probes.iter().filter(|p| p.misuse).count(),
+        "per_pattern_(probes, as_expected)": per_pattern, "rustc_error_codes_seen": code_hist, "expected_codes": EXPECTED,
+        "public_borrowing_methods_without_a_row": unprobed,
+    });
+    rep
+}
+
+pub fn replay_case(case: &serde_json::Value) -> Vec<Finding> {
+    let rlib = std::env::var("MC_CACHES_RLIB").unwrap_or_default();
+    let deps = std::path::Path::new(&rlib).parent().map(|p| p.to_string_lossy().to_string()).unwrap_or_default();
+    let dir = format!("{}/target/probes-replay-{}", crate::check::VERIF, std::process::id());
+    let _ = std::fs::create_dir_all(&dir);
+    let p = Probe { id: "replay".into(), row: case["row"].as_str().unwrap_or("").to_string(), pattern: "replay", misuse: true, src: case["source"].as_str().unwrap_or("").to_string() };
+    let v = compile(&dir, &rlib, &deps, &p);
+    let _ = std::fs::remove_dir_all(&dir);
+    match v {
+        Ok(v) if v.compiled => vec![Finding::new("C19", "misuse_is_rejected_at_compile_time", p.row.clone(), format!("the probe compiles:\n{}", p.src))],
+        Ok(v) => {
+            println!("rustc rejects the probe: {:?} {}", v.codes, v.first_error);
+            vec![]
+        }
+        Err(e) => {
+            eprintln!("{}", e);
+            vec![]
+        }
+    }
 }
